@@ -8,6 +8,7 @@
 #include "../harness/apitable.hpp"
 #include "../harness/kernels.hpp"
 #include "../harness/ctorops.hpp"
+#include "../harness/lsm_explore.hpp"
 extern "C" {
 #include "reim4/reim4_fftvec_public.h"
 }
@@ -165,6 +166,35 @@ int main(int argc, char** argv) {
                  [&](const std::string& id, const std::string& msg) { ctx.violation(id, msg); },
                  [&](const std::string& id, bool begin) { if (begin) ctx.begin_case(id); else ctx.end_case(true); });
   }, "constructors x content of fresh heap memory");
+  // the *_simple functions keep tables between calls: every ordered pair of calls of one function (other dimension, divisor,
+  // bound) with exact-size buffers - a table reused for the wrong dimension reads or writes outside the declared extents
+  {
+    std::vector<LsmOp> so;
+    add_simple_ops(so);
+    struct Pair { int a, b; };
+    std::vector<Pair> pairs;
+    for (size_t a = 0; a < so.size(); ++a) for (size_t b = 0; b < so.size(); ++b)
+      if (so[a].family == so[b].family && so[a].name.find("4096") == std::string::npos && so[b].name.find("4096") == std::string::npos) pairs.push_back({(int)a, (int)b});
+    uint64_t* sh = (uint64_t*)mmap(0, 4096, PROT_READ | PROT_WRITE, MAP_SHARED | MAP_ANONYMOUS, -1, 0);
+    const size_t chunk = 16;
+    ctx.parallel((pairs.size() + chunk - 1) / chunk, [&](uint64_t ci) {
+      for (size_t k = ci * chunk; k < std::min(pairs.size(), (ci + 1) * chunk); ++k) {
+        const LsmOp& A = so[pairs[k].a]; const LsmOp& B = so[pairs[k].b];
+        std::string id = "simple-sequence|" + A.name + " ; " + B.name;
+        if (!ctx.want(id)) continue;
+        ctx.begin_case(id);
+        uint64_t* slot = sh + 4 * (ci % 64);
+        slot[0] = slot[1] = slot[2] = 0;
+        fflush(stdout);
+        pid_t p = fork();
+        if (p == 0) { A.run(); slot[0] = B.run(); slot[1] = B.explicit_run ? B.explicit_run() : slot[0]; slot[2] = 1; _exit(0); }
+        int st; waitpid(p, &st, 0);
+        if (!WIFEXITED(st) || WEXITSTATUS(st) != 0 || !slot[2]) ctx.violation(id, "the second call crashes or is stopped by the sanitizer (access outside a declared extent)");
+        else if (slot[0] != slot[1]) ctx.violation(id, "the second call does not return what freshly built tables return (it used the table of the first call)");
+        ctx.end_case(true);
+      }
+    }, "*_simple call sequences");
+  }
   ctx.assumptions = {"library and harness built with -fsanitize=address; every buffer is a heap block of exactly the declared extent (right red zone at its end, poisoned slack on its left)",
                      "declared extents are those of DESIGN.md appendix A; NTT120 vectors are 32*N (DFT) / 16*N (big) bytes per limb as in the repository's tests",
                      "NOT_IMPLEMENTED() stubs (reim_from_znx32*, reim_from_tnx32*, reim_to_tnx32*) abort by design and are excluded",
